@@ -12,6 +12,7 @@ from pathlib import Path
 V = Path(__file__).resolve().parent.parent
 sys.path.insert(0, str(V))
 from gv import canon  # noqa: E402
+from gv.index import _collect_imports, _modname  # noqa: E402
 
 root = Path(os.environ.get("GV_REPO", "/repo")) / "src" / "gemseo"
 out = {}
@@ -21,6 +22,9 @@ for path in sorted(root.rglob("*.py")):
     tree = ast.parse(text)
     # a module whose text is the reference text needs no normalisation (the reference tree is a fixpoint)
     out[f"#digest:{rel}"] = hashlib.sha1(text.encode()).hexdigest()
+    # local name -> qualified target of every import of the module (gv.canon.normalise_imports)
+    out[f"#imports:{rel}"] = _collect_imports(tree, _modname(rel), rel.endswith("__init__.py"))
+    out[f"#qualified:{rel}"] = canon.qualified_uses(tree, out[f"#imports:{rel}"])
 
     def visit(node, prefix):
         for ch in ast.iter_child_nodes(node):
